@@ -34,7 +34,7 @@ PROBES = ["closure_writer", "closure_export", "closure_compress", "closure_repac
           "closure_join", "copy_same_valid", "corrupt_single", "corrupt_pair", "corrupt_copy_compared",
           "k_feat_len", "k_contour_len", "k_roi", "k_unknown_feat", "k_missing_key", "k_index", "k_channel_count",
           "k_laser_count", "k_samples", "k_extlink", "k_nonpositive", "fluorescence_product", "trace_without_flmax",
-          "stored_index", "fl3_only_product", "index_rewritten_in_replace_mode", "export_feature_subset", "switched_off_laser_defined", "checked_before_corrupted_in_place",
+          "stored_index", "fl3_only_product", "index_rewritten_in_replace_mode", "export_feature_subset", "export_overrides_existing_file", "three_writer_sessions_one_without_exit", "switched_off_laser_defined", "checked_before_corrupted_in_place",
           "basin_export_without_some_features"]
 COMPONENTS = {
     "real": ["dclab.rtdc_dataset.check (IntegrityChecker, check_dataset)", "dclab RTDCWriter, export.hdf5, cli compress/repack/"
@@ -114,13 +114,14 @@ class World:
                     "trace": (fl and r.random() < 0.6) or (not fl and r.random() < 0.12), "image": r.random() < 0.6,
                     "mask": r.random() < 0.5, "contour": r.random() < 0.3, "index": r.random() < 0.3,
                     "flset": r.choice([[1, 2], [1, 2], [1], [2], [3], [3], [1, 3], [1, 2, 3]]),
-                    "rewrite_index": r.random() < 0.25, "laser_off": r.random() < 0.3,
+                    "rewrite_index": r.random() < 0.25, "laser_off": r.random() < 0.3, "sessions3": r.random() < 0.3,
                     "cmp": r.choice(["zstd", "zstd1", "gzip", "none"])}
         src = r.randrange(1 << 16)
         if x < 0.22:
             return {"k": "export", "src": src, "filtered": r.random() < 0.6, "mseed": r.randrange(1 << 30),
                     "basins": r.random() < 0.3, "logs": r.random() < 0.5, "tables": r.random() < 0.5,
-                    "feats": r.choice(["innate", "innate", "no_fl", "subset"]), "fseed": r.randrange(1 << 20)}
+                    "feats": r.choice(["innate", "innate", "no_fl", "subset"]), "fseed": r.randrange(1 << 20),
+                    "onto": r.choice([0, 0, r.randrange(1, 1 << 16)])}
         if x < 0.36:
             tool = r.choice(["compress", "repack", "condense"])
             opts = {}
@@ -244,7 +245,30 @@ class World:
         name = self.newname("w")
         try:
             with quiet():
-                gen.write_model(m, self.dir / name, compression=op["cmp"])
+                if op.get("sessions3") and n >= 3 and "index" in m.feats:
+                    # three sessions on one file; the middle one is closed without leaving a with-block (hw.close()):
+                    # the event count is not rectified there
+                    from dclab.rtdc_dataset.writer import RTDCWriter
+                    a, b = max(1, n // 3), max(2, 2 * n // 3)
+                    parts = [m.select(np.arange(0, a)), m.select(np.arange(a, b)), m.select(np.arange(b, n))]
+                    for pi, part in enumerate(parts):
+                        if "index" in part.feats:
+                            part.feats.pop("index")
+                    gen.write_model(parts[0], self.dir / name, compression=op["cmp"])
+                    with RTDCWriter(self.dir / name, mode="append") as hw:
+                        hw.store_feature("index", np.arange(1, a + 1))
+                    hw2 = RTDCWriter(self.dir / name, mode="append")
+                    for f, v in parts[1].feats.items():
+                        hw2.store_feature(f, v)
+                    hw2.store_feature("index", np.arange(a + 1, b + 1))
+                    hw2.close()
+                    with RTDCWriter(self.dir / name, mode="append") as hw3:
+                        for f, v in parts[2].feats.items():
+                            hw3.store_feature(f, v)
+                        hw3.store_feature("index", np.arange(b + 1, n + 1))
+                    ctx.probe("three_writer_sessions_one_without_exit")
+                else:
+                    gen.write_model(m, self.dir / name, compression=op["cmp"])
                 if op.get("rewrite_index") and "index" in m.feats:
                     # a second writer session in replace mode stores the index again (still dclab's own writer)
                     from dclab.rtdc_dataset.writer import RTDCWriter
@@ -297,8 +321,15 @@ class World:
                     ctx.probe("export_feature_subset")
                     if op["basins"]:
                         ctx.probe("basin_export_without_some_features")
+                override = False
+                if op.get("onto") and self.files:
+                    # the target path already holds another product (an earlier export): override=True replaces it
+                    other = self.files[op["onto"] % len(self.files)]
+                    shutil.copyfile(self.dir / other["name"], self.dir / name)
+                    override = True
+                    ctx.probe("export_overrides_existing_file")
                 ds.export.hdf5(self.dir / name, features=feats, filtered=op["filtered"], basins=op["basins"],
-                               logs=op["logs"], tables=op["tables"])
+                               logs=op["logs"], tables=op["tables"], override=override)
         except Exception as e:
             return self.skipped("export", e)
         ctx.state_ops += 1
